@@ -179,6 +179,31 @@ def run_tlc(module, cfg, env=None, workers=1, simulate=None, depth=None, seed=No
     return res
 
 
+# --------------------------------------------------------------------------- Apalache (unbounded theorems)
+
+
+def run_apalache(module, inv, init="Init", length=0, timeout=900):
+    """apalache-mc check on spec/<module>.tla: returns ("holds" | "violated" | "inconclusive", wall seconds, tail of output).
+    Used only for theorems over unbounded integers that TLC decides on a lattice; TLC stays the deciding tool."""
+    exe = shutil.which("apalache-mc") or "/opt/veriftools/apalache/bin/apalache-mc"
+    out = tempfile.mkdtemp(prefix="vapa_")
+    t0 = time.time()
+    try:
+        p = subprocess.run([exe, "check", "--init=" + init, "--inv=" + inv, "--length=%d" % length, "--out-dir=" + out,
+                            "--run-dir=" + os.path.join(out, "run"), os.path.join(SPEC, module + ".tla")],
+                           cwd=out, stdout=subprocess.PIPE, stderr=subprocess.STDOUT, timeout=timeout)
+        text = p.stdout.decode("utf-8", "replace")
+    except (subprocess.TimeoutExpired, OSError) as ex:
+        return "inconclusive", time.time() - t0, str(ex)[:300]
+    finally:
+        shutil.rmtree(out, ignore_errors=True)
+    if "The outcome is: NoError" in text:
+        return "holds", time.time() - t0, text[-300:]
+    if "The outcome is: Error" in text and "invariant 0 violated" in text:
+        return "violated", time.time() - t0, text[-300:]
+    return "inconclusive", time.time() - t0, text[-600:]
+
+
 # --------------------------------------------------------------------------- TLA+ values printed by TLC
 
 
@@ -350,6 +375,22 @@ class Ctx(object):
         if res.distinct == 0:
             raise MachineryError("model %s/%s explored no states\n%s" % (module, cfg, res.raw[-1500:]))
         return res
+
+    # ---- Apalache: theorems over unbounded integers (design level)
+    def theorems(self, module, invs, neg=None, label=None):
+        """invs: invariants that must hold for Init (every integer value); neg = (init, inv): must be violated.
+        A solver that does not answer in time leaves the theorem undecided (a note, TLC's bounded result stands);
+        an answer opposite to the expected one is a machinery failure, like a failing model run."""
+        jobs = [("Init", i, "holds") for i in invs] + ([(neg[0], neg[1], "violated")] if neg else [])
+        with ThreadPoolExecutor(max_workers=len(jobs)) as ex:
+            outs = list(ex.map(lambda j: run_apalache(module, j[1], init=j[0]), jobs))
+        for (init, inv, want), (got, wall, tail) in zip(jobs, outs):
+            self.tlc_runs.append({"module": module, "tool": "apalache", "init": init, "invariant": inv, "expected": want, "got": got,
+                                  "wall_s": round(wall, 1), "label": label})
+            if got == "inconclusive":
+                self.notes.append("apalache undecided on %s/%s (%s): %s" % (module, inv, init, tail[-200:]))
+            elif got != want:
+                raise MachineryError("apalache: %s/%s from %s expected %s, got %s\n%s" % (module, inv, init, want, got, tail))
 
     # ---- trace validation
     def validate(self, module, cfg, records, **kw):
